@@ -10,6 +10,7 @@
    number of tasks with ANY straight-line programs of read/write acquisitions,
    and leads to [st] with the enter/exit log [ev]. *)
 From PV Require Import Base.Prelude Sync.RWLock Sync.RWLockProofs Sync.FileLock Sync.FileLockProofs.
+From PV Require Import Sync.ThreadRWLock Sync.ThreadRWLockProofs.
 
 (* never two writers inside, never a writer together with a reader: every
    interleaving, every cancellation point, any number of tasks *)
@@ -109,3 +110,76 @@ Theorem filelock_refuted_overstay :
     fexec false 1 (finit progs Absent) sched = Some (st, ev) /\ fwriters_in st = 2.
 Proof. exact filelock_overstay. Qed.
 Print Assumptions filelock_refuted_overstay.
+
+(* ------------------------------------------------------------------------
+   The threading twin, pymap.concurrent._ThreadingReadWriteLock -- the lock
+   the maildir backend really uses (its commands run in a thread pool).
+   Model Sync/ThreadRWLock.v: any number of threads, any programs of read /
+   write sections (bodies may raise), one step = one threading.Lock.acquire()
+   (blocking, not re-entrant) / release() (no ownership) / read of _counter /
+   write of _counter.  [texec (tinit progs) sched]: the state after the
+   schedule [sched], an ARBITRARY list of thread ids (picking a blocked or
+   finished thread is a stutter) -- every interleaving is covered. *)
+
+(* a writer holds the lock from the return of its acquire() to its release()
+   ([WBody], [WR1]), a reader from its increment of the counter to its
+   decrement ([RA6], [RBody], [RR1..RR3]): never two writers, never a writer
+   together with a reader *)
+Theorem C20_thread_excl : forall progs sched,
+  let st := texec (tinit progs) sched in
+  twriters_in st <= 1 /\ (twriters_in st = 1 -> treaders_in st = 0).
+Proof. exact thr_excl_thm. Qed.
+Print Assumptions C20_thread_excl.
+
+(* the same for the bodies of the critical sections alone *)
+Theorem C20_thread_body_excl : forall progs sched,
+  let st := texec (tinit progs) sched in
+  tsum body_w (ths st) <= 1 /\ (1 <= tsum body_w (ths st) -> tsum body_r (ths st) = 0).
+Proof. exact thr_body_excl_thm. Qed.
+Print Assumptions C20_thread_body_excl.
+
+(* _counter = number of readers between their increment and their decrement
+   (readers inside plus readers past the increment / before the decrement) *)
+Theorem C20_thread_counter : forall progs sched,
+  let st := texec (tinit progs) sched in tcnt st = treaders_in st.
+Proof. exact thr_counter_thm. Qed.
+Print Assumptions C20_thread_counter.
+
+(* no `RuntimeError: release unlocked lock`, the counter never goes negative *)
+Theorem C20_thread_no_runtime_error : forall progs sched,
+  terr (texec (tinit progs) sched) = false.
+Proof. exact thr_no_error_thm. Qed.
+Print Assumptions C20_thread_no_runtime_error.
+
+(* no deadlock: in every reachable state in which some thread has not
+   finished, some thread is not blocked, and its step consumes budget *)
+Theorem C20_thread_no_deadlock : forall progs sched,
+  let st := texec (tinit progs) sched in
+  (exists t, tunfinished st t) ->
+  exists t, tenabled st t = true /\ tmeasure (tstep st t) < tmeasure st.
+Proof. exact thr_no_deadlock_thm. Qed.
+Print Assumptions C20_thread_no_deadlock.
+
+(* ranking: the effective (non-stutter) steps of any schedule are bounded by
+   the budget of the programs (20 per section + 1 per thread) *)
+Theorem C20_thread_terminates : forall progs sched,
+  teff (tinit progs) sched + tmeasure (texec (tinit progs) sched) <= tmeasure (tinit progs).
+Proof. exact thr_terminates_thm. Qed.
+Print Assumptions C20_thread_terminates.
+
+(* hence every schedule with that many effective steps -- every fair schedule
+   eventually has, by C20_thread_no_deadlock -- has run every thread to its end *)
+Theorem C20_thread_fair_finishes : forall progs sched,
+  tmeasure (tinit progs) <= teff (tinit progs) sched ->
+  tall_finished (texec (tinit progs) sched).
+Proof. exact thr_fair_finishes_thm. Qed.
+Print Assumptions C20_thread_fair_finishes.
+
+(* exceptions: whatever bodies raised (the `finally` of read_lock / the `with`
+   of write_lock are the only exit paths), once every thread has ended --
+   normally or by its exception -- both mutexes are free and the counter is 0 *)
+Theorem C20_thread_released : forall progs sched,
+  let st := texec (tinit progs) sched in
+  tall_finished st -> trl st = false /\ twl st = false /\ tcnt st = 0.
+Proof. exact thr_released_thm. Qed.
+Print Assumptions C20_thread_released.
